@@ -140,6 +140,21 @@ Theorem C17_writes_only_when_done : forall e cfg w,
 Proof. exact run_client_writes_only_when_done. Qed.
 Print Assumptions C17_writes_only_when_done.
 
+(* ================= plugins' process_schema, then validation, then generation: one schema ================= *)
+(* every schema use recorded in the log (validation of the operations, construction of the package generator)
+   is at the stage AFTER add_mixin_directive_to_schema and the plugins' process_schema *)
+Theorem C17_validation_schema_is_generation_schema : forall e cfg w s1 s2,
+  In (EValidateOps s1) (fst (run_client e cfg w)) -> In (EGenerate s2) (fst (run_client e cfg w)) ->
+  s1 = s2 /\ s1 = SProcessed.
+Proof. exact validation_schema_is_generation_schema. Qed.
+Print Assumptions C17_validation_schema_is_generation_schema.
+
+(* what graphql-core says about the operations against the schema BEFORE process_schema never matters *)
+Theorem C17_raw_verdict_ignored : forall e cfg w errs,
+  run_client e cfg (with_raw_op_errors w errs) = run_client e cfg w.
+Proof. exact run_client_ignores_raw_verdict. Qed.
+Print Assumptions C17_raw_verdict_ignored.
+
 (* ================= the two schema sources ================= *)
 (* schema_path is prioritised: with a local schema nothing is ever sent to remote_schema_url *)
 Theorem C17_schema_path_prioritised : forall e cfg w,
@@ -231,7 +246,7 @@ Definition ex_cfg (extra : section) : json :=
 Definition ex_world (errs : list string) (b : build_res) : world :=
   {| w_schema_files := [{| gf_path := "s.graphql"; gf_ok := true |}]; w_schema_build := b; w_url := Introspect.UOk; w_resp := ok_resp; w_deep := None;
      w_schema_errors := errs; w_plugin_err := None;
-     w_query_files := [{| gf_path := "q.graphql"; gf_ok := true |}]; w_op_errors := [];
+     w_query_files := [{| gf_path := "q.graphql"; gf_ok := true |}]; w_op_errors := []; w_op_errors_raw := [];
      w_ops := [{| op_name := Some "GetQ"; op_err := None |}]; w_fragments := false; w_query_type := true; w_mutation_type := false |}.
 Definition is_ok {A} (r : res A) : bool := match r with Ok _ => true | _ => false end.
 Definition dummy_craw : craw :=
@@ -265,7 +280,7 @@ Proof. vm_compute. auto. Qed.
 Theorem C17_ops_same_module_refused_regression :
   let w := {| w_schema_files := [{| gf_path := "s.graphql"; gf_ok := true |}]; w_schema_build := BuildOk;
               w_url := Introspect.UOk; w_resp := ok_resp; w_deep := None; w_schema_errors := []; w_plugin_err := None;
-              w_query_files := [{| gf_path := "q.graphql"; gf_ok := true |}]; w_op_errors := [];
+              w_query_files := [{| gf_path := "q.graphql"; gf_ok := true |}]; w_op_errors := []; w_op_errors_raw := [];
               w_ops := [{| op_name := Some "GetA"; op_err := None |}; {| op_name := Some "getA"; op_err := None |}];
               w_fragments := false; w_query_type := true; w_mutation_type := false |} in
   snd (run_client ex_env (ex_cfg []) w)
@@ -280,6 +295,21 @@ Theorem C17_schema_reserved_variable_rejected :
         "Provided name GraphQLSchema is imported by the generated schema module and cannot be used as a variable name in it.") /\
   get_graphql_schema_settings ex_env (ex_cfg [("type_map_variable_name", JStr "schema")])
     = Err (mkerr InvalidConfiguration "schema_variable_name and type_map_variable_name must be different.").
+Proof. vm_compute. auto. Qed.
+
+(* a plugin hides a field: valid before, invalid after -> refused, typed, nothing written;
+   a plugin adds a field: invalid before, valid after -> accepted *)
+Example C17_processed_schema_decides :
+  let w proc raw := {| w_schema_files := [{| gf_path := "s.graphql"; gf_ok := true |}]; w_schema_build := BuildOk;
+       w_url := Introspect.UOk; w_resp := ok_resp; w_deep := None; w_schema_errors := []; w_plugin_err := None;
+       w_query_files := [{| gf_path := "q.graphql"; gf_ok := true |}]; w_op_errors := proc; w_op_errors_raw := raw;
+       w_ops := [{| op_name := Some "Q"; op_err := None |}]; w_fragments := false; w_query_type := true;
+       w_mutation_type := false |} in
+  let bad := [("FieldsOnCorrectTypeRule", "Cannot query field 'internalStats' on type 'Query'.")] in
+  run_client ex_env (ex_cfg []) (w bad [])
+    = ([ERead "s.graphql"; ERead "q.graphql"; EValidateOps SProcessed],
+       Failed PhQueries (mkerr InvalidOperationForSchema "Cannot query field 'internalStats' on type 'Query'.")) /\
+  snd (run_client ex_env (ex_cfg []) (w [] bad)) = Done.
 Proof. vm_compute. auto. Qed.
 
 (* F17: an invalid schema is accepted and the package is written *)
@@ -319,7 +349,7 @@ Example C17_remote_examples :
                ("queries_path", JStr "q.graphql"); ("target_package_path", JStr "out")])])] in
   let w r := {| w_schema_files := []; w_schema_build := BuildOk; w_url := Introspect.UOk; w_resp := r;
                 w_deep := None; w_schema_errors := []; w_plugin_err := None;
-                w_query_files := [{| gf_path := "q.graphql"; gf_ok := true |}]; w_op_errors := [];
+                w_query_files := [{| gf_path := "q.graphql"; gf_ok := true |}]; w_op_errors := []; w_op_errors_raw := [];
                 w_ops := [{| op_name := Some "Q"; op_err := None |}]; w_fragments := false; w_query_type := true;
                 w_mutation_type := false |} in
   run_client ex_env cfg (w {| Introspect.r_status := 500%Z; Introspect.r_body := None |})
@@ -347,7 +377,7 @@ Example C17_each_phase_can_fail :
   snd (run_client ex_env (ex_cfg [])
          {| w_schema_files := [{| gf_path := "s.graphql"; gf_ok := false |}]; w_schema_build := BuildOk;
             w_url := Introspect.UOk; w_resp := ok_resp; w_deep := None; w_schema_errors := []; w_plugin_err := None; w_query_files := [];
-            w_op_errors := []; w_ops := []; w_fragments := false; w_query_type := true; w_mutation_type := false |})
+            w_op_errors := []; w_op_errors_raw := []; w_ops := []; w_fragments := false; w_query_type := true; w_mutation_type := false |})
     = Failed PhSchema (mkerr InvalidGraphqlSyntax "Invalid graphql syntax in file s.graphql") /\
   snd (run_client ex_env (ex_cfg [])
          {| w_schema_files := [{| gf_path := "s.graphql"; gf_ok := true |}]; w_schema_build := BuildOk;
@@ -355,12 +385,13 @@ Example C17_each_phase_can_fail :
             w_query_files := [{| gf_path := "q.graphql"; gf_ok := true |}];
             w_op_errors := [("NoUnusedFragmentsRule", "Fragment 'F' is never used.");
                             ("ScalarLeafsRule", "Field 'me' must have a selection of subfields.")];
+            w_op_errors_raw := [];
             w_ops := []; w_fragments := false; w_query_type := true; w_mutation_type := false |})
     = Failed PhQueries (mkerr InvalidOperationForSchema "Field 'me' must have a selection of subfields.") /\
   snd (run_client ex_env (ex_cfg [])
          {| w_schema_files := [{| gf_path := "s.graphql"; gf_ok := true |}]; w_schema_build := BuildOk;
             w_url := Introspect.UOk; w_resp := ok_resp; w_deep := None; w_schema_errors := []; w_plugin_err := None;
-            w_query_files := [{| gf_path := "q.graphql"; gf_ok := true |}]; w_op_errors := [];
+            w_query_files := [{| gf_path := "q.graphql"; gf_ok := true |}]; w_op_errors := []; w_op_errors_raw := [];
             w_ops := [{| op_name := Some "Client"; op_err := None |}]; w_fragments := false; w_query_type := true; w_mutation_type := false |})
     = Failed PhGenerate (mkerr ParsingError "Duplicated file names: ").
 Proof. vm_compute. repeat split. Qed.
